@@ -209,6 +209,28 @@ def run(ck):
               "after the read, fewer bytes written than the destination holds is an error (tested on the cursor position, so it also holds for chunked byte strings)" if len(good) == 1 else
               "no test after the read that the bytes actually written fill the fixed-size destination: a chunked byte string shorter than the destination is accepted, the rest stays zero", g.loc())
     ck.floor("CMP", "fixed-size byte string decoders", nfx, 1)
+    # decoding is total: a count or length that comes out of an item header is never fed to unchecked arithmetic (`2 * size`
+    # panics in checked builds and wraps in release for a header that declares 2^63 entries). The only additions in the
+    # decoder advance a cursor by an amount already bounded by the buffer
+    ARITH_OK = {"CursorExt>::advance": "position + n with n <= remaining capacity of the cursor", "decoder::advance_vec": "position + min(n, remaining)"}
+    nar = 0
+    for pth in sorted(p2 for p2 in cg.bodies if re.search(r"common::cbor::(decoder|primitives|value)", p2) and not re.search(r"::tests?::|erialize|encode", p2)):
+        for bdy in cg.bodies[pth]:
+            g = Fn(bdy)
+            raw = []
+            for bi in sorted(g.reachable()):
+                for st in g.stmts(bi):
+                    rv = st.get("rv", {})
+                    if rv.get("k") == "bin" and re.match(r"^(Mul|Add|Shl)", rv["op"]) and (op_const(rv["a"]) is None or op_const(rv["b"]) is None):
+                        raw.append((bi, rv["op"]))
+            if not raw:
+                continue
+            nar += 1
+            exc = [v for k, v in ARITH_OK.items() if pth.endswith(k)]
+            okr = bool(exc) and all(op.startswith("Add") for (_, op) in raw)
+            ck.ob("ERR", pth, "no-unchecked-arithmetic-on-decoded-sizes", okr,
+                  "documented: " + exc[0] if okr else "unchecked %s on a value of the decoder: a header that declares a huge count overflows it (panic or wrap-around)" % sorted(set(op for (_, op) in raw)), g.loc(raw[0][0]), nontrivial=False)
+    ck.note("%d decoder functions contain unchecked arithmetic (2 documented cursor advances on the pinned tree)" % nar)
     # every byte of a decoded item is either interpreted or checked: a decoder that walks its input with an explicit iterator
     # (`chunks`, `rchunks`, `iter`, `split`) and takes a fixed number of elements with next()/next_back() outside a loop must
     # also establish that nothing is left (a later element tested to be absent, or the rest consumed by all/any/for/count);
